@@ -1309,7 +1309,9 @@ class ItemSpaceParent(ItemFactoryImpl, BaseNamespaceReferrer, HasFormula):
 
             # Set refs
             refs = params.get("refs", None)
-            # TODO: check if refs is a dict with str keys
+            if refs is not None and not isinstance(refs, Mapping):
+                # Raise before the ItemSpace is constructed and registered
+                raise ValueError("refs must be a mapping")
 
         else:
             raise ValueError("Space formula must return either dict or None")
@@ -2208,9 +2210,16 @@ class ItemSpaceImpl(DynamicSpaceImpl):
         DynamicSpaceImpl.__init__(
             self, parent, name, parent._named_itemspaces, base, refs, arguments, cache
         )
-        self._bind_args(self.arguments)
-        self._init_child_spaces(self)
-        self._init_dynbaserefs()
+        try:
+            self._bind_args(self.arguments)
+            self._init_child_spaces(self)
+            self._init_dynbaserefs()
+        except:
+            # Do not leave the unfinished space registered in its parent
+            # and its base, nor an earlier interface attached to it
+            self.on_delete()
+            parent.named_itemspaces.del_item(name)
+            raise
 
     def _init_root(self, parent):
         self.rootspace = self
